@@ -10,7 +10,7 @@ from prop import SchedProp  # noqa: E402
 
 class C31(SchedProp):
     id = 'C31'
-    gen_opts = {'p_sequential': 0.6}
+    gen_opts = {'p_sequential': 0.6, 'p_seqfam': 0.4}
     props_modules = ['CylcModel.Props.C31']
     theorems = [
         'CylcModel.C31.seq_order',
@@ -30,9 +30,57 @@ class C31(SchedProp):
     technique = ('graph-shape hypothesis + C01 submit_sound (atomic-action invariants of the Lean scheduler model) + trace '
                  'correspondence with the real Scheduler + trace judge')
     trusted = ['the runner instrumentation (wrapper around TaskPool.remove that only records)']
-    rule = ('as C01 with 60% of the tasks of every workflow declared sequential (one or more recurrences, explicit '
+    rule = ('as C01 with 60% of the tasks of every workflow declared sequential (in 40% of the workflows through a family '
+            'name SEQ inherited as first, second or only parent, multiple inheritance with a second family; "declared '
+            'sequential" is computed from the flow.cylc text, not from tdef.sequential; one or more recurrences, explicit '
             'inter-cycle triggers on the same task, warm starts, stop points); non-trivial = distinct (kind, ending, '
             'launch-count class, polls) class per distinct case')
+
+    @staticmethod
+    def declared_sequential(flow: str):
+        """The names declared sequential by the flow.cylc TEXT: the [[special tasks]] sequential list, family names
+        replaced by everything that inherits them (full, multiple inheritance) - not read from tdef.sequential."""
+        import re
+        listed = []
+        m = re.search(r'^\s*sequential\s*=\s*(.*)$', flow, flags=re.M)
+        if m:
+            listed = [x.strip() for x in m.group(1).split(',') if x.strip()]
+        parents = {}
+        cur = None
+        in_runtime = False
+        for ln in flow.splitlines():
+            if re.match(r'^\[runtime\]\s*$', ln):
+                in_runtime = True
+                continue
+            if re.match(r'^\[[^\[]', ln):
+                in_runtime = False
+            if not in_runtime:
+                continue
+            h = re.match(r'^\s*\[\[([^\[\]]+)\]\]\s*$', ln)
+            if h:
+                cur = h.group(1).strip()
+                parents.setdefault(cur, [])
+                continue
+            i = re.match(r'^\s*inherit\s*=\s*(.*)$', ln)
+            if i and cur is not None:
+                parents[cur] = [x.strip() for x in i.group(1).split(',') if x.strip()]
+
+        def ancestors(n, seen=None):
+            seen = seen or set()
+            for q in parents.get(n, []):
+                if q not in seen:
+                    seen.add(q)
+                    ancestors(q, seen)
+            return seen
+        names = set(parents) | set(listed)
+        return sorted(n for n in names if n in listed or ancestors(n) & set(listed))
+
+    def driver_input(self, inp, raw):
+        d = super().driver_input(inp, raw)
+        if 'graph' in d:
+            # which tasks the flow text declares sequential (the judge does not take it from tdef.sequential)
+            d['seq_declared'] = [n for n in self.declared_sequential(inp.get('flow', '')) if n in raw['graph']['tasks']]
+        return d
 
     def classify(self, inp, obs):
         base = super().classify(inp, obs)
